@@ -282,6 +282,11 @@ func (lc *leaderController) NewTerm(req *proto.NewTermRequest) (*proto.NewTermRe
 	}
 
 	lc.followers = nil
+	// Entries that were appended but whose sync is still pending are part of the log: they must be
+	// included in the head we report, the log must not grow after we have answered
+	if err := lc.wal.Sync(context.Background()); err != nil {
+		return nil, err
+	}
 	headEntryId, err := getLastEntryIdInWal(lc.wal)
 	if err != nil {
 		return nil, err
